@@ -75,6 +75,19 @@ def _imports():
     return atom, misc
 
 
+def preload():
+    """Import pkgcore in the parent (called from plan()) so that forked workers inherit the loaded modules
+    (saves ~3 s of import per task).  pkgcore.ebuild.processor installs SIGTERM/SIGINT handlers that raise; they
+    must not leak into pool workers (a worker that gets SIGTERM while still in its fork bootstrap would swallow
+    the exception and never exit), so the handlers found before the import are put back."""
+    import signal
+
+    saved = {sig: signal.getsignal(sig) for sig in (signal.SIGINT, signal.SIGTERM)}
+    _imports()
+    for sig, h in saved.items():
+        signal.signal(sig, h)
+
+
 class Objs:
     def __init__(self):
         self.atom_mod, self.misc = _imports()
@@ -519,7 +532,7 @@ def _valid_fullver(s):
 
 
 def plan(tier, seed):
-    _imports()  # pre-load pkgcore in the parent: forked workers inherit the modules (saves ~3 s per task)
+    preload()
     tasks = []
     for name, n in (("versions", 6), ("constraints", 2), ("use", 2), ("conditional", 3)):
         for i in range(n):
